@@ -82,13 +82,45 @@ def _deps_changed(target, depfile):
     return os.path.getmtime(LIB) > t if os.path.exists(LIB) else True
 
 
+CFLAGS_C = ['-O1', '-g', '-w', '-fcommon', '-fsanitize=address,undefined'] + DEFS
+
+
+def build_c_object(spec):
+    """Pre-build hook: compile one C source of /repo (`<path relative to /repo>[:<flag>,<flag>…]`) into an
+    instrumented object.  `-fcommon` lets C files that repeat the same tentative global definitions be linked together."""
+    os.makedirs(os.path.join(BUILD, 'obj'), exist_ok=True)
+    rel, _, fl = spec.partition(':')
+    flags = [f for f in fl.split(',') if f]
+    out = os.path.join(BUILD, 'obj', re.sub(r'[^A-Za-z0-9_.=-]', '_', spec) + '.o')
+    dep = out + '.d'
+    with Lock('obj_' + os.path.basename(out)):
+        if not _deps_changed(out, dep):
+            return True, out, ''
+        r = sh(['gcc'] + CFLAGS_C + flags + ['-MMD', '-MF', dep, '-I' + REPO, '-c', os.path.join(REPO, rel), '-o', out])
+        if r.returncode != 0:
+            if os.path.exists(out):
+                os.remove(out)
+            return False, out, r.stdout[-6000:]
+        return True, out, ''
+
+
 def build_harness(name, sources, extra=None, link_lib=True, cflags=None):
-    """Compile a harness against /repo's current headers and the freshly built library."""
+    """Compile a harness against /repo's current headers and the freshly built library.
+    An `extra` entry `c:<path>` names a C source of /repo that is compiled (on every run, from the
+    current source) into an object and linked in."""
     out = os.path.join(BUILD, 'h_' + name)
     dep = out + '.d'
     srcs = [os.path.join(VERIF, s) for s in sources]
+    objs = []
+    for x in list(extra or []):
+        if x.startswith('c:'):
+            ok, o, err = build_c_object(x[2:])
+            if not ok:
+                return False, out, 'C source %s of /repo does not compile:\n%s' % (x[2:], err)
+            objs.append(o)
+    extra = [x for x in (extra or []) if not x.startswith('c:')] + objs
     with Lock('h_' + name):
-        if not _deps_changed(out, dep):
+        if not _deps_changed(out, dep) and all(os.path.getmtime(o) <= os.path.getmtime(out) for o in objs):
             return True, out, ''
         cmd = ['g++'] + (cflags or CXXFLAGS) + ['-MMD', '-MF', dep, '-I' + REPO, '-I' + os.path.join(VERIF, 'harness')] + srcs
         if link_lib:
@@ -124,11 +156,11 @@ def regenerate():
             return False, 'extract_consts failed:\n' + r.stderr[-3000:], changed
         if write_if_changed(os.path.join(LEAN, 'MuscleModel', 'Generated', 'Constants.lean'), r.stdout):
             changed.append('Constants.lean')
-        ext = os.path.join(VERIF, 'tools', 'extract_kernels.py')
-        if os.path.exists(ext):
+        # every tools/extract_*.py is an extractor: `<script> <repo> <Generated dir>`, prints `CHANGED <file>` per rewritten file
+        for ext in sorted(glob.glob(os.path.join(VERIF, 'tools', 'extract_*.py'))):
             r = sh([sys.executable, ext, REPO, os.path.join(LEAN, 'MuscleModel', 'Generated')])
             if r.returncode != 0:
-                return False, 'extract_kernels failed:\n' + r.stdout[-3000:], changed
+                return False, os.path.basename(ext) + ' failed:\n' + r.stdout[-3000:], changed
             changed += [l[8:] for l in r.stdout.splitlines() if l.startswith('CHANGED ')]
     return True, '', changed
 
